@@ -17,6 +17,10 @@ import (
 type c01Val struct {
 	s       string
 	trusted bool
+	// loose: the value is a string payload concatenated with trusted HTML; the
+	// property only demands that the string part is escaped (what happens to
+	// the trusted part of such a concatenation is not specified)
+	loose string
 }
 
 // expected output segment
@@ -49,11 +53,11 @@ func (g *c01Gen) lit() string {
 	return pick(g.r, []string{"", "_", "x", "ab ", "-.-", "\n", " z "})
 }
 
-const c01NSteps = 19
+const c01NSteps = 21
 const c01NSinks = 9
 
 var c01StepNames = []string{"let", "array-index", "hash-index", "userfn-identity", "gohelper-identity", "gohelper-typed", "concat-left", "concat-right",
-	"for-var", "if-block", "else-block", "helper-block", "contentFor-body", "contentOf-data", "partial-data", "partial-layout", "userfn-body", "userfn-param-body", "nested-array"}
+	"for-var", "if-block", "else-block", "helper-block", "contentFor-body", "contentOf-data", "partial-data", "partial-layout", "userfn-body", "userfn-param-body", "nested-array", "concat-with-trusted-right", "concat-with-trusted-left"}
 var c01SinkNames = []string{"out", "if-return", "array-literal", "for-return", "hash-index-out", "let-then-out", "typed-strings-slice", "ifaces-slice", "for-over-typed-slice"}
 
 func (g *c01Gen) choose(n int) int {
@@ -113,8 +117,11 @@ func (g *c01Gen) route(d int, expr string, v c01Val) (string, []c01Seg) {
 		}
 	}
 	k := g.choose(c01NSteps)
-	if v.trusted && (k == 6 || k == 7 || k == 5) {
+	if v.trusted && (k == 6 || k == 7 || k == 5 || k >= 19) {
 		k = 0 // concat / string-typed helper are string-only steps
+	}
+	if v.loose != "" && (k == 5 || k == 6 || k == 7 || k >= 19) {
+		k = 0
 	}
 	g.labels = append(g.labels, "step:"+c01StepNames[k])
 	switch k {
@@ -182,8 +189,12 @@ func (g *c01Gen) route(d int, expr string, v c01Val) (string, []c01Seg) {
 		f, a := g.id("f"), g.id("a")
 		in, segs := g.route(d-1, a, v)
 		return one("<% let "+f+" = fn("+a+") { %>", "<% } %><%= "+f+"("+expr+") %>", in, segs)
-	default:
+	case 18:
 		return g.route(d-1, "[[1, "+expr+"]][0][1]", v)
+	case 19:
+		return g.route(d-1, "("+expr+" + raw(\"<br>\"))", c01Val{s: v.s, loose: "<br>"})
+	default:
+		return g.route(d-1, "(\"\" + "+expr+" + trustedVar)", c01Val{s: v.s, loose: "<hr>"})
 	}
 }
 
@@ -256,6 +267,7 @@ func c01Ctx(partials map[string]string) *plush.Context {
 	ctx := plush.NewContext()
 	ctx.Set("ident", func(x interface{}) interface{} { return x })
 	ctx.Set("idstr", func(s string) string { return s })
+	ctx.Set("trustedVar", template.HTML("<hr>"))
 	ctx.Set("mkstrs", func(s string) []string { return []string{s, s} })
 	ctx.Set("mkhtmls", func(s interface{}) []interface{} { return []interface{}{s, s} })
 	ctx.Set("mkifaces", func(s interface{}) []interface{} { return []interface{}{s, s} })
@@ -314,6 +326,18 @@ func c01Judge(b *core.B, src string, segs []c01Seg, res R, id string, sigPrefix 
 	var canon, plain strings.Builder
 	var trusted []string
 	hasNUL := false
+	for _, s := range segs {
+		if s.val != nil && s.val.loose != "" {
+			// only the model-free oracle applies: the string payload must be escaped
+			if strings.Contains(res.Out, id) {
+				b.NonTrivialStr(src, id)
+			}
+			if why := c01ModelFree(res.Out, []string{s.val.loose}); why != "" {
+				b.Violate(sigPrefix+"unescaped-output", why)
+			}
+			return
+		}
+	}
 	for _, s := range segs {
 		if s.val == nil {
 			canon.WriteString(s.lit)
